@@ -348,7 +348,7 @@ def run(pid, tier):
     for _ in range(30):
         val.append([e2.concrete_str("".join(rnd.choice("`a{} é") for _ in range(rnd.randint(0, 6))))])
     e2.process(rep, prog, NAT, h_fence(nb), tier, validate_inputs=val)
-    K, L = (3, 4) if tier == "quick" else (4, 5)
+    K, L = (3, 4) if tier == "quick" else (4, 4)      # (4, 5) takes more than an hour on 16 cores
     docs = [["```s", "$ a", "```"], ["---", "a", "---", "x"], ["```s"], ["---"], ["a", "```", "b"], ["```s", "```"],
             ["```s", "# c", "$ a", "```", "t"], ["````", "```s", "```", "````"]]
     vald = [[Slice([e2.concrete_str(l) for l in d])] for d in docs]
